@@ -194,6 +194,65 @@ def key_chain(node):
     return None, None
 
 
+def _fold_str(e):
+    """the string a key expression spells when it is built from literals only: 'A' + str(3), f"A{3}", 'A{}'.format(3), 'A%d' % 3"""
+    if isinstance(e, ast.Constant) and isinstance(e.value, (str, int)) and not isinstance(e.value, bool):
+        return e.value
+    if isinstance(e, ast.BinOp) and isinstance(e.op, ast.Add):
+        a, b = _fold_str(e.left), _fold_str(e.right)
+        if isinstance(a, str) and isinstance(b, str):
+            return a + b
+        if isinstance(a, int) and isinstance(b, int):
+            return a + b
+        return None
+    if isinstance(e, ast.BinOp) and isinstance(e.op, ast.Sub):
+        a, b = _fold_str(e.left), _fold_str(e.right)
+        return a - b if isinstance(a, int) and isinstance(b, int) else None
+    if isinstance(e, ast.Call) and isinstance(e.func, ast.Name) and e.func.id == "str" and len(e.args) == 1 and not e.keywords:
+        v = _fold_str(e.args[0])
+        return str(v) if v is not None else None
+    if isinstance(e, ast.JoinedStr):
+        parts = []
+        for v in e.values:
+            if isinstance(v, ast.Constant):
+                parts.append(str(v.value))
+            elif isinstance(v, ast.FormattedValue) and v.format_spec is None and v.conversion in (-1, 115):
+                x = _fold_str(v.value)
+                if x is None:
+                    return None
+                parts.append(str(x))
+            else:
+                return None
+        return "".join(parts)
+    return None
+
+
+def _fold_target(t, view):
+    """the store target with every key that is spelled from literals (directly, or through what the caller hands over for a helper's
+    parameter) written as that literal"""
+    if not any(not isinstance(n_.slice, ast.Constant) for n_ in ast.walk(t) if isinstance(n_, ast.Subscript)):
+        return t
+    import copy as _copy
+    from .core import _strip_parents
+    t2 = _copy.deepcopy(_strip_parents(t)) if False else None
+    node, chain = t, []
+    while isinstance(node, ast.Subscript):
+        chain.append(node)
+        node = node.value
+    out = node
+    for sub in reversed(chain):
+        k = sub.slice
+        if not isinstance(k, ast.Constant):
+            try:
+                v = _fold_str(view.expr(k))
+            except Exception:
+                v = None
+            if isinstance(v, str):
+                k = ast.Constant(value=v)
+        out = ast.Subscript(value=out, slice=k, ctx=ast.Store())
+    return out
+
+
 def _range_values(forst):
     """for i in range(a, b) with literal bounds -> list of ints, else None"""
     it = forst.iter
@@ -228,6 +287,22 @@ def _literal_seq(node, fn):
         defs = [st for st in walk_no_nested(fn) if isinstance(st, ast.Assign) and any(isinstance(t, ast.Name) and t.id == node.id for t in st.targets)]
         if len(defs) == 1:
             return _literal_seq(defs[0].value, fn)
+        if not defs:
+            # a table of the module
+            mod = fn
+            while getattr(mod, "_parent", None) is not None:
+                mod = mod._parent
+            tops = [st for st in getattr(mod, "body", []) if isinstance(st, ast.Assign) and any(isinstance(t, ast.Name) and t.id == node.id for t in st.targets)]
+            if len(tops) == 1 and isinstance(tops[0].value, (ast.Tuple, ast.List)):
+                return list(tops[0].value.elts)
+    if isinstance(node, ast.Attribute) and isinstance(node.value, ast.Name):
+        # a table of the class: self.X / cls.X / <Class>.X
+        cls_ = getattr(fn, "_parent", None)
+        if isinstance(cls_, ast.ClassDef) and node.value.id in ("self", "cls", cls_.name):
+            tops = [st for st in cls_.body if isinstance(st, ast.Assign) and any(isinstance(t, ast.Name) and t.id == node.attr for t in st.targets)]
+            stores = [n_ for n_ in ast.walk(cls_) if isinstance(n_, ast.Attribute) and n_.attr == node.attr and isinstance(n_.ctx, (ast.Store, ast.Del))]
+            if len(tops) == 1 and not stores and isinstance(tops[0].value, (ast.Tuple, ast.List)):
+                return list(tops[0].value.elts)
     return None
 
 
@@ -301,19 +376,73 @@ def _unroll_table_loops(fn, view):
     import copy
     from .core import _strip_parents
 
-    def literal_rows(it):
+    def literal_rows(it, depth=0):
+        """the rows a loop header runs over, when the source says so: a literal sequence (in place, a local, a table of the module, or what a
+        caller hands over), `[x] * n`, range(...) with literal bounds, enumerate / zip of such, a comprehension or generator over such"""
         e = it
+        if depth > 6:
+            return None
         if isinstance(e, ast.Name):
             defs = [s_ for s_ in walk_no_nested(fn) if isinstance(s_, ast.Assign) and any(isinstance(t, ast.Name) and t.id == e.id for t in s_.targets)]
             if len(defs) == 1:
-                e = defs[0].value
-            elif not defs:
-                try:
-                    e = view.expr(e)
-                except Exception:
-                    return None
+                return literal_rows(defs[0].value, depth + 1)
+            if defs:
+                return None
+            try:
+                e2 = view.expr(e)
+            except Exception:
+                return None
+            if not (isinstance(e2, ast.Name) and e2.id == e.id):
+                return literal_rows(e2, depth + 1)
+            tops = _literal_seq(e, fn)
+            return list(tops) if tops and len(tops) <= 40 else None
         if isinstance(e, (ast.Tuple, ast.List)) and 0 < len(e.elts) <= 40 and not any(isinstance(x, ast.Starred) for x in e.elts):
             return list(e.elts)
+        if isinstance(e, ast.BinOp) and isinstance(e.op, ast.Mult):
+            seq, k = (e.left, e.right) if isinstance(e.left, (ast.List, ast.Tuple)) else (e.right, e.left)
+            if isinstance(seq, (ast.List, ast.Tuple)) and isinstance(k, ast.Constant) and isinstance(k.value, int) and 0 < k.value * len(seq.elts) <= 40:
+                return list(seq.elts) * k.value
+            return None
+        if isinstance(e, ast.Call) and isinstance(e.func, ast.Name):
+            if e.func.id == "range" and not e.keywords and all(isinstance(a, ast.Constant) and isinstance(a.value, int) for a in e.args) and 1 <= len(e.args) <= 3:
+                vals = list(range(*[a.value for a in e.args]))
+                return [ast.Constant(value=v) for v in vals] if 0 < len(vals) <= 40 else None
+            if e.func.id == "enumerate" and len(e.args) in (1, 2) and all(k.arg == "start" for k in e.keywords):
+                start = e.args[1] if len(e.args) == 2 else (e.keywords[0].value if e.keywords else ast.Constant(value=0))
+                rows = literal_rows(e.args[0], depth + 1)
+                if rows is None or not (isinstance(start, ast.Constant) and isinstance(start.value, int)):
+                    return None
+                return [ast.Tuple(elts=[ast.Constant(value=start.value + i), r], ctx=ast.Load()) for i, r in enumerate(rows)]
+            if e.func.id == "zip" and e.args and not e.keywords:
+                cols = [literal_rows(a, depth + 1) for a in e.args]
+                if any(c is None for c in cols):
+                    return None
+                return [ast.Tuple(elts=list(r), ctx=ast.Load()) for r in zip(*cols)]
+            if e.func.id in ("list", "tuple") and len(e.args) == 1 and not e.keywords:
+                return literal_rows(e.args[0], depth + 1)
+            return None
+        if isinstance(e, (ast.GeneratorExp, ast.ListComp)) and len(e.generators) == 1 and not e.generators[0].ifs:
+            g_ = e.generators[0]
+            rows = literal_rows(g_.iter, depth + 1)
+            if rows is None:
+                return None
+            out_rows = []
+            for r in rows:
+                if isinstance(g_.target, ast.Name):
+                    m = {g_.target.id: r}
+                elif isinstance(g_.target, ast.Tuple) and isinstance(r, (ast.Tuple, ast.List)) and len(r.elts) == len(g_.target.elts) \
+                        and all(isinstance(x, ast.Name) for x in g_.target.elts):
+                    m = {t_.id: v_ for t_, v_ in zip(g_.target.elts, r.elts)}
+                else:
+                    return None
+
+                class _S(ast.NodeTransformer):
+                    def visit_Name(self, n):
+                        if n.id in m and isinstance(n.ctx, ast.Load):
+                            return copy.deepcopy(m[n.id])
+                        return n
+                out_rows.append(_S().visit(copy.deepcopy(e.elt)))
+            return out_rows
         return None
 
     todo = []
@@ -398,7 +527,7 @@ def written_keys(fn, methods, seen=None, view=None):
             tgts = [st.target]
         for t in tgts:
             if isinstance(t, ast.Subscript):
-                base, ks = key_chain(t)
+                base, ks = key_chain(_fold_target(t, view))
                 if base in DICTS and ks:
                     cond = _conditional(st, fn)
                     expanded = _expand_key(ks[-1], st, fn)
@@ -478,6 +607,23 @@ def analyse_setters(index, rep):
                 ok = isinstance(st.value, ast.Constant) and st.value.value is False
                 rep.check(ok, rule, f"__init__:{d[5:]}", "exactly-once flag is not initialised to False", loc=loc(SCEN, st))
                 init_flags.add(d[5:])
+        elif isinstance(st, ast.For) and isinstance(st.target, ast.Name):
+            # for flag in ("A_SET", ...): setattr(self, flag, False)
+            elts = _literal_seq(st.iter, init)
+            if not elts or not all(isinstance(e, ast.Constant) and isinstance(e.value, str) for e in elts):
+                continue
+            for a_ in st.body:
+                c_ = a_.value if isinstance(a_, ast.Expr) else None
+                if isinstance(c_, ast.Call) and dotted(c_.func) == "setattr" and len(c_.args) == 3 and norm_src(c_.args[0]) == "self":
+                    for e in elts:
+                        try:
+                            nm = str_eval(c_.args[1], st.target.id, e.value)
+                        except AnalysisError:
+                            nm = None
+                        if isinstance(nm, str) and nm.endswith("_SET"):
+                            ok = isinstance(c_.args[2], ast.Constant) and c_.args[2].value is False
+                            rep.check(ok, rule, f"__init__:{nm}", "exactly-once flag is not initialised to False", loc=loc(SCEN, a_))
+                            init_flags.add(nm)
     check_flags = set()
     for st in check.body:
         if isinstance(st, ast.Assert):
@@ -573,6 +719,11 @@ def analyse_setters(index, rep):
         changed = False
         for name, fn in list(helpers.items()):
             body = [s_ for s_ in fn.body if not (isinstance(s_, ast.Expr) and isinstance(s_.value, ast.Constant))]
+            # what a delegating setter says about itself in the run's description is no part of the protocol
+            body = [s_ for s_ in body if not (isinstance(s_, (ast.AugAssign, ast.Assign)) and norm_src(s_.target if isinstance(s_, ast.AugAssign) else s_.targets[0])
+                                              == "self.scenario_description")
+                    and not (isinstance(s_, ast.Assert) and "_SET" not in norm_src(s_.test) and not any(isinstance(c_, ast.Call) and isinstance(c_.func, ast.Attribute)
+                                                                                                         and c_.func.attr not in ("keys", "get") for c_ in ast.walk(s_.test)))]
             call = None
             if len(body) == 1 and isinstance(body[0], ast.Return) and isinstance(body[0].value, ast.Call):
                 call = body[0].value
@@ -613,7 +764,22 @@ def analyse_setters(index, rep):
                and isinstance(n.ctx, ast.Load) for n in ast.walk(s)):
             first_read = i
             break
-    rep.check(idx is not None and (first_read is None or idx <= first_read), rule, "check_all_set-before-use",
+    in_callee = idx is not None and (first_read is None or idx <= first_read)
+    in_callers = False
+    if idx is None:
+        # ... or by every caller, unconditionally, before it hands the constants over
+        sites = []
+        for rel in index.py_files("src"):
+            for f_ in [n_ for n_ in ast.walk(index.module(rel)) if isinstance(n_, ast.FunctionDef)]:
+                top = [s_ for s_ in f_.body]
+                for i, s_ in enumerate(top):
+                    if any(isinstance(c, ast.Call) and isinstance(c.func, ast.Attribute) and c.func.attr == "compute_parameters_first_round" for c in ast.walk(s_)) \
+                            and not isinstance(s_, (ast.FunctionDef, ast.ClassDef)):
+                        before = any(isinstance(b_, ast.Expr) and isinstance(b_.value, ast.Call) and isinstance(b_.value.func, ast.Attribute)
+                                     and b_.value.func.attr == "check_all_set" for b_ in top[:i])
+                        sites.append(before and not isinstance(s_, (ast.If, ast.For, ast.While, ast.Try, ast.With)))
+        in_callers = bool(sites) and all(sites)
+    rep.check(in_callee or in_callers, rule, "check_all_set-before-use",
               "compute_parameters_first_round reads scenario constants before (or without) calling check_all_set()",
               loc=loc(PARAMS, p))
     rep.note_analysed("setters", len(setters))
@@ -723,6 +889,69 @@ def dispatch(index, rep, sinfo):
                             and norm_src(a_.test.left) == st.target.id and norm_src(a_.test.comparators[0]) in ("scenario_option.keys()", "scenario_option"):
                         for k in keys_:
                             present.add((k, st.lineno))
+    # a validation pass made before the dispatch: a table {option key: accepted values} of the module and loops over it asserting that the key
+    # is there and that its value is one of the accepted ones - written in the dispatcher itself or in a helper it calls first
+    validated = {}
+    modbody = index.module(RUN).body
+    tables = {}
+    for st in modbody:
+        if isinstance(st, ast.Assign) and len(st.targets) == 1 and isinstance(st.targets[0], ast.Name) and isinstance(st.value, ast.Dict) and st.value.keys \
+                and all(str_const(k_) is not None for k_ in st.value.keys) \
+                and all(isinstance(v_, (ast.Tuple, ast.List, ast.Set)) and all(str_const(e_) is not None for e_ in v_.elts) for v_ in st.value.values):
+            tables[st.targets[0].id] = {str_const(k_): [str_const(e_) for e_ in v_.elts] for k_, v_ in zip(st.value.keys, st.value.values)}
+
+    def read_validation(stmts, opt_name, at_line):
+        for st in stmts:
+            if not (isinstance(st, ast.For) and not st.orelse):
+                continue
+            it_ = st.iter
+            tname, mode = None, None
+            if isinstance(it_, ast.Name) and it_.id in tables:
+                tname, mode = it_.id, "keys"
+            elif isinstance(it_, ast.Call) and isinstance(it_.func, ast.Attribute) and isinstance(it_.func.value, ast.Name) and it_.func.value.id in tables \
+                    and it_.func.attr in ("keys", "items") and not it_.args:
+                tname, mode = it_.func.value.id, it_.func.attr
+            if tname is None:
+                continue
+            if mode == "items":
+                if not (isinstance(st.target, ast.Tuple) and len(st.target.elts) == 2 and all(isinstance(x, ast.Name) for x in st.target.elts)):
+                    continue
+                kvar, vvar = st.target.elts[0].id, st.target.elts[1].id
+            else:
+                if not isinstance(st.target, ast.Name):
+                    continue
+                kvar, vvar = st.target.id, None
+            for a_ in st.body:
+                if not (isinstance(a_, ast.Assert) and isinstance(a_.test, ast.Compare) and len(a_.test.ops) == 1 and isinstance(a_.test.ops[0], ast.In)):
+                    continue
+                left, right = norm_src(a_.test.left), norm_src(a_.test.comparators[0])
+                if left == kvar and right in (f"{opt_name}.keys()", opt_name):
+                    for k_ in tables[tname]:
+                        present.add((k_, at_line))
+                if left == f"{opt_name}[{kvar}]" and (right == vvar or right == f"{tname}[{kvar}]"):
+                    for k_, vals_ in tables[tname].items():
+                        validated[k_] = list(vals_)
+
+    if tables:
+        read_validation(fn.body, "scenario_option", min((s_.lineno for s_ in fn.body if isinstance(s_, ast.For)), default=0))
+        for st in fn.body:
+            c_ = st.value if isinstance(st, ast.Expr) and isinstance(st.value, ast.Call) else None
+            d_ = dotted(c_.func) if c_ is not None else None
+            h_ = None
+            if d_ and d_.startswith("self.") and d_[5:] in index.methods(RUN, "ScenarioRunner"):
+                h_, skip_ = index.methods(RUN, "ScenarioRunner")[d_[5:]], 1
+            elif d_ and any(isinstance(f_, ast.FunctionDef) and f_.name == d_ for f_ in modbody):
+                h_, skip_ = next(f_ for f_ in modbody if isinstance(f_, ast.FunctionDef) and f_.name == d_), 0
+            if h_ is None or len(c_.args) + len(c_.keywords) != 1:
+                continue
+            arg_ = (c_.args or [c_.keywords[0].value])[0]
+            if norm_src(arg_) != "scenario_option" or len(h_.args.args) != skip_ + 1:
+                continue
+            # the helper only checks: nothing but assertions (in loops), no stores into its argument
+            pure = all(isinstance(n_, (ast.For, ast.Assert, ast.Expr, ast.Pass)) and not (isinstance(n_, ast.Expr) and not isinstance(n_.value, ast.Constant))
+                       for n_ in h_.body) and all(isinstance(b_, (ast.Assert, ast.Pass)) for n_ in h_.body if isinstance(n_, ast.For) for b_ in n_.body)
+            if pure:
+                read_validation(h_.body, h_.args.args[skip_].arg, st.lineno)
     chains = {}
     order = []
     for st in fn.body:
@@ -816,8 +1045,17 @@ def dispatch(index, rep, sinfo):
         eb = ch["else_block"] or []
         rej = any(isinstance(s, ast.Assert) and norm_src(s.test) in ("scenario_is_correct", "False") for s in eb) and \
             any(isinstance(s, ast.Assign) and norm_src(s) == "scenario_is_correct = False" for s in eb)
+        if not rej and key in validated:
+            # refused up front: whatever the validation pass lets through has an arm of its own
+            handled = {v_ for v_, _, _ in ch["arms"]}
+            rej = set(validated[key]) <= handled
         rep.check(rej, rule, f"option[{key}]:unknown-rejected",
                   f"an unknown value of '{key}' is not rejected (final else must assert)", loc=loc(RUN, ch["node"]))
+        if key in validated:
+            for v_, _, node_ in ch["arms"]:
+                rep.check(v_ in validated[key], rule, f"option[{key}={v_}]:accepted-by-the-validation-pass",
+                          f"the dispatcher has an arm for {key}={v_!r} but the validation pass made before it refuses that value: a supported value "
+                          "is rejected", loc=loc(RUN, node_))
         fams = set()
         vals = []
         for val, body, node in ch["arms"]:
@@ -1040,6 +1278,13 @@ def effect(index, rep, sinfo, disp):
             vals = []
             for st, cond, v in sts:
                 v = v if v is not None else getattr(st, "value", None)
+                # min(<months>, <table>['NMONTHS']) is <months> on every supported horizon (48..120 months) when <months> <= 48
+                if isinstance(v, ast.Call) and isinstance(v.func, ast.Name) and v.func.id == "min" and len(v.args) == 2 and not v.keywords:
+                    lits = [a_ for a_ in v.args if isinstance(a_, ast.Constant) and isinstance(a_.value, int) and not isinstance(a_.value, bool)]
+                    horizon = [a_ for a_ in v.args if isinstance(a_, ast.Subscript) and str_const(a_.slice) == "NMONTHS"] + [
+                        a_ for a_ in v.args if isinstance(a_, ast.Name) and a_.id.lower() == "nmonths"]
+                    if len(lits) == 1 and len(horizon) == 1 and 0 <= lits[0].value <= 48:
+                        v = lits[0]
                 vals.append(v.value if isinstance(v, ast.Constant) else ("<" + norm_src(v) + ">" if v is not None else "<?>"))
             ok = len(vals) >= 1 and all(v == lit and type(v) == type(lit) for v in vals)
             rep.check(ok, rule, f"stated[{key}={val}]:{k}",
